@@ -84,7 +84,7 @@ def run(tier):
         return [("lit", " " + {"mk": BSIG, "me": ESIG, "mb": BEGIN}[kind])]
     for nh in (0, 1, 2):
         for pshape in payload_shapes:
-            for ns in (1, 2):
+            for ns in (1, 2, "blank-inside", "blank-first"):
                 lines = [("lit", BEGIN)]
                 phases = ["marker"]
                 for i in range(nh):
@@ -101,16 +101,22 @@ def run(tier):
                 lines.append(("lit", BSIG))
                 phases.append("payload-end")
                 sl = []
-                for i in range(ns):
-                    lines.append(line_atom("sig%d" % i))
-                    sl.append(line_atom("sig%d" % i))
+                sig_shape = {"blank-inside": ["s", "", "s"], "blank-first": ["", "s", "s"]}.get(ns, ["s"] * (ns if isinstance(ns, int) else 0))
+                if not isinstance(ns, int) and (nh, pshape) != (1, payload_shapes[1]) and nh != 0:
+                    continue       # signature blocks with a blank line: two header variants x one payload shape suffice
+                for i, k in enumerate(sig_shape):
+                    if k == "":
+                        lines.append(("lit", ""))
+                    else:
+                        lines.append(line_atom("sig%d" % i))
+                        sl.append(line_atom("sig%d" % i))
                     phases.append("signature")
                 lines.append(("lit", ESIG))
                 phases.append("signature-end")
                 want_payload = symstr.show(symstr.mk([x for p in pl for x in (list(p) + [("lit", "\n")])]))
                 want_sig = symstr.show(symstr.mk(sl))
                 names = {"p": "line", "": "empty", "pw": "line+trailing-blanks", "ws": "blank-only", "mk": "indented BEGIN-SIGNATURE look-alike", "me": "indented END-SIGNATURE look-alike", "mb": "indented BEGIN-MESSAGE look-alike"}
-                label = "headers=%d payload=%s signature=%d" % (nh, [names[p] for p in pshape], ns)
+                label = "headers=%d payload=%s signature=%s" % (nh, [names[p] for p in pshape], ns)
                 for final_nl in (True, False):
                     got, I = call(build(lines, final_nl))
                     n += 1
